@@ -76,6 +76,8 @@ type Model struct {
 	RespMismatch map[*Conn]string
 	// valid quiescence stamps (no stalled reader at that point)
 	Q []int64
+	// wills of connections ended by Server.Close (not judged)
+	ExemptWills map[string]bool
 }
 
 func respType(p *refmqtt.Packet) byte {
@@ -89,6 +91,8 @@ func respType(p *refmqtt.Packet) byte {
 		}
 	case refmqtt.PUBREL:
 		return refmqtt.PUBCOMP
+	case refmqtt.PUBREC:
+		return refmqtt.PUBREL // the subscriber acknowledged a QoS 2 delivery: the broker must release it
 	case refmqtt.SUBSCRIBE:
 		return refmqtt.SUBACK
 	case refmqtt.UNSUBSCRIBE:
@@ -101,7 +105,7 @@ func respType(p *refmqtt.Packet) byte {
 
 func isResp(t byte) bool {
 	switch t {
-	case refmqtt.PUBACK, refmqtt.PUBREC, refmqtt.PUBCOMP, refmqtt.SUBACK, refmqtt.UNSUBACK, refmqtt.PINGRESP:
+	case refmqtt.PUBACK, refmqtt.PUBREC, refmqtt.PUBCOMP, refmqtt.SUBACK, refmqtt.UNSUBACK, refmqtt.PINGRESP, refmqtt.PUBREL:
 		return true
 	}
 	return false
@@ -119,24 +123,38 @@ func rawKey(p []byte) string {
 	return fmt.Sprintf("raw:%d:%016x", len(p), h)
 }
 
+// brokerClosed reports whether the broker's endpoint of c was closed before
+// the client ended the connection (the client need not have noticed: its
+// reader may be stalled), with the stamp and virtual time of that close.
+func brokerClosed(c *Conn) (bool, int64, int64) {
+	p := c.nc.Peer()
+	if !p.Closed() {
+		return false, 0, 0
+	}
+	if c.ClientEnded && c.EndStamp < p.ClosedSeq {
+		return false, 0, 0
+	}
+	return true, p.ClosedSeq, int64(p.ClosedVT)
+}
+
 // connEnd returns the stamp until which the connection certainly existed from
 // the broker's point of view.
 func connCertainEnd(c *Conn) int64 {
-	if c.ClientEnded {
-		return c.EndStamp
-	}
-	if c.Dead {
+	if bc, _, _ := brokerClosed(c); bc {
 		// ended by the broker: certainly alive when it sent its last packet
 		if n := len(c.Down); n > 0 {
 			return c.Down[n-1].Last
 		}
 		return 0
 	}
+	if c.ClientEnded {
+		return c.EndStamp
+	}
 	return inf
 }
 
 func analyze(h *Hist) *Model {
-	m := &Model{H: h, Reqs: map[*Conn][]*Req{}, RespMismatch: map[*Conn]string{}}
+	m := &Model{H: h, Reqs: map[*Conn][]*Req{}, RespMismatch: map[*Conn]string{}, ExemptWills: map[string]bool{}}
 	m.Q = append(m.Q, h.Quiesce...)
 	// 1. request/response matching per connection
 	for _, c := range h.Conns {
@@ -515,11 +533,11 @@ func (m *Model) EndCause(c *Conn) string {
 			return "disconnect"
 		}
 	}
+	if bc, _, _ := brokerClosed(c); bc {
+		return "broker-closed"
+	}
 	if c.ClientEnded {
 		return c.EndKind // fin, rst, final
-	}
-	if c.Dead {
-		return "broker-closed"
 	}
 	return "open"
 }
@@ -537,18 +555,24 @@ func (m *Model) buildWills() {
 		if cause == "disconnect" || cause == "open" {
 			continue
 		}
-		if h.ServerCloseCall > 0 && (c.EndStamp == 0 || c.EndStamp > h.ServerCloseCall) && !(c.Dead && c.DeadStamp < h.ServerCloseCall) {
-			// ended by Server.Close: not judged here
+		bc, bcStamp, _ := brokerClosed(c)
+		endAt := c.EndStamp
+		if bc {
+			endAt = bcStamp
+		}
+		src0, seq0, ok0 := identify(cp.WillMessage)
+		if h.ServerCloseCall > 0 && (endAt == 0 || endAt > h.ServerCloseCall) {
+			// ended by (or after) Server.Close: not judged here
+			if ok0 {
+				m.ExemptWills[keyOf(src0, seq0)] = true
+			}
 			continue
 		}
 		lo := c.EndStamp
-		if !c.ClientEnded {
+		if bc {
 			lo = c.OpenStamp
 		}
-		from := lo
-		if c.Dead && c.DeadStamp > from {
-			from = c.DeadStamp
-		}
+		from := endAt
 		hi := m.nextQuiescence(from)
 		if hi == inf {
 			hi = h.FinalStamp
